@@ -304,6 +304,7 @@ class Stats:
         self.unhandled_runs = 0
         self.loud_failures = 0
         self.sweep_variants = 0
+        self.header_alone = 0
         self.sessions = 0
         self.session_invocations = 0
         self.session_outcomes = {}
@@ -507,6 +508,26 @@ def run_campaign(tier, seed, jobs, only_runs=None):
             records.extend(ex.map(do_session, splans))
         if splans:
             say("  sessions: %d sessions, %d invocations (%.0f s)" % (stats.sessions, stats.session_invocations, _perf() - t0))
+        # stand-alone sample of clause (c): public headers as the first include, six toolchains
+        hcases = _plan.header_alone_cases(tree, seed, tier)
+        if only_runs:
+            hcases = [c for c in hcases if c["run"] in only_runs]
+
+        def do_header(c):
+            ev = _check.evaluate_case(ctx, c)
+            rec = {"run": c["run"], "kind": "header-alone", "violations": ev["violations"], "_case": c}
+            with stats.lock:
+                stats.header_alone += 1
+                if ev.get("inconclusive"):
+                    stats.inconclusive.append({"run": c["run"], "why": "header rejected alone and after au/au.hh"})
+            if ev.get("harness_error"):
+                harness_errors.append(ev["harness_error"])
+            return [rec]
+
+        with ThreadPoolExecutor(jobs) as ex:
+            records.extend(ex.map(do_header, hcases))
+        if hcases:
+            say("  stand-alone headers: %d (header, toolchain) compiles (%.0f s)" % (len(hcases), _perf() - t0))
         stats.sim_runs = ctx.pool.runs
 
         if harness_errors:
@@ -727,6 +748,7 @@ def write_evidence(tier, seed, t0, ctx, stats, cov, det, exitm, reported, known_
             "fault_free_plans": stats.fault_free,
             "faulty_executions": stats.faulty,
             "systematic_sweep_fault_variants": stats.sweep_variants,
+            "standalone_header_compiles": stats.header_alone,
             "sessions": {"sessions": stats.sessions, "invocations": stats.session_invocations, "outcomes": dict(sorted(stats.session_outcomes.items()))},
             "runs_per_hour": int(runs / wall * 3600) if wall > 0 else 0,
             "builds": ctx.builder.n_builds,
